@@ -43,7 +43,7 @@ ASSUMPTIONS = [
     "how long a call that has to wait is delayed is unspecified beyond the window bound and quiescence",
     "arrival order of same-instant callers is the order in which the harness entered the wrapper",
 ]
-MINIMUMS = {"monitor:window": 3000, "bursts_over_limit": 1000, "calls_that_waited": 1000, "monitor:no-needless-delay": 3000, "histories_over_two_event_loops": 300}
+MINIMUMS = {"monitor:window": 3000, "bursts_over_limit": 1000, "calls_that_waited": 1000, "monitor:no-needless-delay": 3000, "histories_over_two_event_loops": 300, "histories_with_a_call_time_facade": 100}
 JOBS = {"quick": 4, "thorough": 16}
 LEVEL_TEXT = (
     "Every arrival pattern of up to 5 calls with gaps from {0, 1/4, 1/2, 1, 5/4, 2} periods is run for limits 1-4 (period as float and as timedelta - sub-second, a day, 36 hours, a week) in exact "
@@ -79,7 +79,7 @@ def run_case(R: Recorder, case: dict[str, Any], verbose: bool = False) -> None:
     argsok: list[bool] = []
 
     async def function(i: int, *, tag: str) -> Any:
-        starts[i] = clock.now - t0
+        starts.setdefault(i, clock.now - t0)
         argsok.append(tag == f"t{i}")
         if durs[i]:
             await asyncio.sleep(durs[i] * q)
@@ -89,6 +89,22 @@ def run_case(R: Recorder, case: dict[str, Any], verbose: bool = False) -> None:
         produced[i] = ("value", i, object())
         return produced[i]
 
+    if case.get("factory"):
+        # the throttled callable is a plain function that starts working when it is called and hands back a coroutine for the rest
+        # (a functools.wraps-style facade of an async function), marked as a coroutine function: its invocation begins at the call
+        import inspect
+
+        body = function
+
+        def facade(i: int, *, tag: str) -> Any:
+            starts[i] = clock.now - t0
+            return body(i, tag=tag)
+
+        async def function(i: int, *, tag: str) -> Any:  # type: ignore[no-redef]  # noqa: F811
+            raise AssertionError("unused")
+
+        function = inspect.markcoroutinefunction(facade)  # type: ignore[assignment]
+        R.count("histories_with_a_call_time_facade")
     if case.get("deco") == "bare":
         wrapped = throttle(function)
     else:
@@ -224,6 +240,10 @@ def exhaustive(tier: str):  # noqa: ANN201
     for n in (1, 2, 3):
         for gaps in itertools.product(GAPS, repeat=n - 1):
             yield {"limit": 1, "period": 1, "pform": "float", "gaps": [0, *gaps], "deco": "bare"}
+    for limit in (1, 2):
+        for n in (2, 3, 4):
+            for gaps in itertools.product(GAPS[:4], repeat=n - 1):
+                yield {"limit": limit, "period": 1.0, "pform": "float", "gaps": [0, *gaps], "factory": True}
     # one wrapper used from two consecutive event loops (e.g. two asyncio.run calls): the window does not care about loops
     for limit in (1, 2, 3):
         for n in range(2, 5):
@@ -242,6 +262,8 @@ def random_case(rng: random.Random) -> dict[str, Any]:
                             "durs": [rng.choice([0, 0, 1, 4, 6, 12]) for _ in range(n)], "fails": [rng.random() < 0.15 for _ in range(n)], "scoped": rng.random() < 0.3}
     if rng.random() < 0.4:
         case["cancel"] = [rng.randrange(n), rng.choice([0, 1, 2, 3, 5])]
+    if rng.random() < 0.15:
+        case["factory"] = True
     if rng.random() < 0.2:
         case["split"] = rng.randint(1, min(limit, n - 1))
         case["scoped"] = False
